@@ -64,8 +64,8 @@ def session(bdir, sid, seed, corpus, sz, contempt):
         fixed["Hash"] = "8"
     elif contemptsession:
         fixed["Hash"] = "1"
-    elif rnd.random() < 0.2:
-        fixed["Hash"] = rnd.choice(["17", "24", "40", "3"])      # sizes that are not a power of two (nor a multiple of 16 MB): clearing must reach the tail
+    elif rnd.random() < 0.3:
+        fixed["Hash"] = rnd.choice(["17", "24", "24", "40", "3"])      # sizes that are not a power of two (nor a multiple of 16 MB): clearing must reach the tail
     elif rnd.random() < 0.6:
         fixed["Hash"] = "1"        # a small table makes slot replacement (and hence the generation counter) matter early
     A = uci.Engine(os.path.join(bdir, "texel-" + net))
@@ -135,6 +135,13 @@ def session(bdir, sid, seed, corpus, sz, contempt):
             if not ok:
                 return ev, "no-bestmove in related prior search"
             ev.append({"e": "Cmd", "proc": "A", "kind": "search", "tb": False, "go": "related"})
+        if fixed.get("Hash") in ("17", "24", "40", "3"):
+            # the probe position itself, searched before Clear Hash: whatever part of the table the clearing misses still holds exactly
+            # the entries the probe will ask for
+            lines = do_search(A, probe["fen"], f"depth {rnd.randint(6, 7)} nodes 400000")
+            if lines is None:
+                return ev, "no-bestmove in same-position prior search"
+            ev.append({"e": "Cmd", "proc": "A", "kind": "search", "tb": False, "go": "probe position itself"})
         if tbsession:
             lines = do_search(A, rnd.choice(TBFENS), "infinite", 0.8)
             if lines is None:
